@@ -669,4 +669,114 @@ theorem custody_execute (st : State) (a : Addr) (c' i sa p : Bytes) :
         unfold balOf
         rw [htk]
 
+/-! ### custody, as an equation -/
+
+theorem custody_other_eq (st : State) (op : Op) (a : Addr) (hc : Clean' st.self op) (hgs : st.gasService ≠ st.self) :
+    balOf (step H S k st op).1 a st.self =
+      balOf st a st.self + (match (step H S k st op).2 with | .err _ => (0 : Int) | _ => 0) := by
+  have h0 : (match (step H S k st op).2 with | .err _ => (0 : Int) | _ => 0) = 0 := by
+    split <;> rfl
+  rw [h0, Int.add_zero]
+  exact (step_FK H S k st op a).keep ⟨hc, hgs⟩
+
+theorem custody_transfer_eq (st : State) (a : Addr) (au : List Addr) (ca : Addr) (ti de da : Bytes) (am : Int)
+    (dt : Option Bytes) (gt : Addr) (ga : Int) (hgs : st.gasService ≠ st.self) (hca : ca ≠ st.self) :
+    balOf (step H S k st (.transfer au ca ti de da am dt gt ga)).1 a st.self =
+      balOf st a st.self +
+        (match (step H S k st (.transfer au ca ti de da am dt gt ga)).2 with
+         | .err _ => 0
+         | _ => if st.registry ti = some (a, .lockUnlock) then am else 0) := by
+  cases hx : interchainTransfer H k st au ca ti de da am dt gt ga with
+  | error e => simp only [step, hx, wrapEv, Int.add_zero]
+  | ok r =>
+    obtain ⟨st', evs⟩ := r
+    simp only [step, hx, wrapEv]
+    obtain ⟨hpos, -, -, -, addr, mgr, st1, payload, hreg, htk, -, hgas, -⟩ := interchainTransfer_inv H k hx
+    have f2 : FK st.self a (ca ≠ st.self ∧ st1.gasService ≠ st.self) st1 st' := tokTransfer_FK hgas
+    cases mgr with
+    | native =>
+      have f1 : FK st.self a (ca ≠ st.self) st st1 := tokBurn_FK htk
+      rw [f2.keep ⟨hca, by rw [f1.gs]; exact hgs⟩, f1.keep hca, hreg]
+      simp
+    | lockUnlock =>
+      dsimp only at htk
+      obtain ⟨-, -, -, hne, -, -, hoth, -, -, -, -, hgs1, -⟩ := tokTransfer_exact _ _ _ _ _ _ _ htk
+      rw [f2.keep ⟨hca, by rw [hgs1]; exact hgs⟩, hreg]
+      by_cases he : a = addr
+      · subst he; rw [(hne hca).2]; simp
+      · have he' : ¬ addr = a := fun e => he e.symm
+        have : balOf st1 a st.self = balOf st a st.self := by unfold balOf; rw [hoth a he]
+        rw [this]; simp [he']
+
+theorem custody_execute_eq (st : State) (a : Addr) (c' i sa p : Bytes) :
+    balOf (step H S k st (.execute c' i sa p)).1 a st.self =
+      balOf st a st.self +
+        (match (step H S k st (.execute c' i sa p)).2 with
+         | .err _ => 0
+         | _ =>
+           match Abi.decodeHub p with
+           | .ok (.receiveFromHub _ (.transfer t)) =>
+             match st.registry t.tokenId, addrFromXdr t.dest with
+             | some (addr, .lockUnlock), some r => if addr = a ∧ r ≠ st.self then - t.amount else 0
+             | some (addr, .native), some r => if addr = a ∧ r = st.self then t.amount else 0
+             | _, _ => 0
+           | _ => 0) := by
+  cases hx : execute H S k st c' i sa p with
+  | error e => simp only [step, hx, wrapEv, Int.add_zero]
+  | ok r =>
+    obtain ⟨st', evs⟩ := r
+    simp only [step, hx, wrapEv]
+    obtain ⟨gw', gwEvs, origin, inner, hdec, hm⟩ := execute_inv5 H S k hx
+    rw [hdec]
+    cases inner with
+    | deploy d =>
+      dsimp only at hm
+      obtain ⟨mo, st1, addr, ev, hd, rfl⟩ := hm
+      have f : FK st.self a True { st with gw := gw' } st1 := deployTok_FK S k hd
+      have := f.keep trivial
+      simp only [Int.add_zero]
+      exact this
+    | transfer t =>
+      dsimp only at hm
+      obtain ⟨recipient, addr, mgr, hdest, hreg, hg, -⟩ := hm
+      simp only [hreg, hdest]
+      cases mgr with
+      | native =>
+        dsimp only at hg
+        obtain ⟨-, -, hb, hoth, htk, -⟩ := tokMint_exact _ _ _ _ _ hg
+        by_cases he : addr = a
+        · subst he
+          by_cases hr : recipient = st.self
+          · subst hr
+            simp only [true_and, if_true]
+            exact hb
+          · have f : FK st.self addr (recipient ≠ st.self) { st with gw := gw' } st' := tokMint_FK hg
+            have := f.keep hr
+            simp only [hr, and_false, if_false, Int.add_zero]
+            exact this
+        · have he' : a ≠ addr := fun e => he e.symm
+          have : balOf st' a st.self = balOf st a st.self := by
+            unfold balOf; rw [htk a he']
+          simp only [he, false_and, if_false, Int.add_zero]
+          exact this
+      | lockUnlock =>
+        dsimp only at hg
+        obtain ⟨-, -, -, hne, heq, -, htk, -⟩ := tokTransfer_exact _ _ _ _ _ _ _ hg
+        by_cases he : addr = a
+        · subst he
+          by_cases hr : recipient = st.self
+          · subst hr
+            have := heq rfl
+            simp only [ne_eq, not_true_eq_false, and_false, if_false, Int.add_zero]
+            exact this
+          · have := (hne (fun e => hr e.symm)).1
+            simp only [ne_eq, hr, not_false_eq_true, and_self, if_true]
+            rw [← Int.sub_eq_add_neg]
+            exact this
+        · have he' : a ≠ addr := fun e => he e.symm
+          have : balOf st' a st.self = balOf st a st.self := by
+            unfold balOf; rw [htk a he']
+          simp only [he, false_and, if_false, Int.add_zero]
+          exact this
+
 end Cgp.Proofs.C05
